@@ -312,6 +312,62 @@ func udpClient(callers int, wrap bool, quick, thorough int) h.Scenario {
 	}}
 }
 
+// ---- udp client: a call that stays pending while the 15-bit identifier space goes once round ----
+
+// The 32767 calls in between are not run: once the first request is on the wire the request counter is set back,
+// so that the next call is handed the identifier the pending call is using (which is what a full lap of completed
+// calls leads to). The peer holds both requests and answers them in an order the explorer picks.
+func udpClientLap(quick, thorough int) h.Scenario {
+	name := "udp-client/pending-call-meets-its-identifier-again"
+	return h.Scenario{Name: name, Quick: quick, Thorough: thorough, Run: func(ch vs.Chooser, trace bool) (*vs.Sched, h.Outcome) {
+		got := make([]string, 2)
+		errs := make([]error, 2)
+		only("udp")
+		var indices []int
+		s := vs.Run(ch, vs.Config{Trace: trace, Dial: func(network, addr string) (vs.Conn, error) {
+			var hold []held
+			c := &vs.DgramConn{Name: "uconn"}
+			c.React = func(c *vs.DgramConn, d []byte) [][]byte {
+				idx, body, ok := sockfake.UParse(d)
+				if !ok {
+					return nil
+				}
+				if string(body) == "warm-up" {
+					return [][]byte{sockfake.UFrame(idx, sockfake.Reply(body))}
+				}
+				indices = append(indices, idx)
+				hold = append(hold, held{idx, append([]byte{}, body...)})
+				if len(hold) == 1 {
+					vs.AddTimer(1000, "peer-answers-held-requests", func() {
+						for _, k := range order(len(hold)) {
+							c.Deliver(sockfake.UFrame(hold[k].index, sockfake.Reply(hold[k].body)))
+						}
+						hold = nil
+					})
+				}
+				return nil
+			}
+			return c, nil
+		}}, func() {
+			client := core.NewClient("udp://peer/")
+			call(client, "warm-up") // creates the pooled connection
+			tr := client.GetTransport("udp").(*udp.Transport)
+			tr.VerifSetCounter(0x1000)
+			vs.GoFG("caller0", func() { got[0], errs[0] = call(client, "payload-of-caller-0") })
+			for len(indices) == 0 {
+				vs.Gosched() // until the first request is on the wire
+			}
+			tr.VerifSetCounter(0x1000) // ... 32767 calls later
+			vs.GoFG("caller1", func() { got[1], errs[1] = call(client, "payload-of-caller-1") })
+		})
+		o := judgeCallers(name, s, got, errs)
+		if len(indices) == 2 && indices[0] == indices[1] && len(s.Hangs) == 0 && !s.Pruned {
+			o.Viol = append(o.Viol, h.V{Sig: "udp|identifier-reused-while-pending", What: fmt.Sprintf("%s: both requests travel under identifier %#x while the first is still pending", name, indices[0])})
+		}
+		return s, o
+	}}
+}
+
 // ---- socket server handler: several requests of one connection, completion order is the scheduler's ----
 
 // With alias the service answers with the request slice itself (an IO-level pass-through): the response then
@@ -389,6 +445,7 @@ func main() {
 	scen := []h.Scenario{
 		socketClient(2, false, 2, 3), socketClient(2, true, 2, 3), socketClient(3, true, 1, 2),
 		udpClient(2, false, 2, 3), udpClient(2, true, 2, 3), udpClient(3, true, 1, 2),
+		udpClientLap(2, 3),
 		socketServer(2, false, 2, 3), socketServer(3, false, 1, 2), socketServer(2, true, 2, 3),
 		socketServer(2, false, 2, 3, true), socketServer(3, false, 1, 2, true), socketServer(2, true, 2, 3, true),
 		reverseScenario(2, 0, 2, 3), reverseScenario(2, time.Second, 2, 3),
